@@ -34,7 +34,9 @@ BUDGET = {'quick': 5000, 'thorough': 120000}
 
 MEM_PATHS = ['/mem/a.json', '/mem/m.json', '/mem/e/m.json', '/mem/mm/em.jsonl', '/mem/zz/q.txt', '/mem/e/r.jsonl']
 STD_PATHS = ['x.json', 'd/y.json', 'd/z.jsonl', 'q.txt', 'd/e/w.json', 'r.jsonl']
-TEXTS = ['', 'a', 'line1\nline2', 'tab\tq"uote\\', 'é☃𝄞', '\x00\x1f', ' trailing ', '{"_type": "x"}']
+TEXTS = ['', 'a', 'line1\nline2', 'tab\tq"uote\\', 'é☃𝄞', '\x00\x1f', ' trailing ', '{"_type": "x"}',
+         # characters that str.splitlines() treats as line boundaries but a record sequence does not
+         'a\x0bb', 'x\x85y', 'p\u2028q', 'c\rd', 'e\x1cf\x0c']
 
 
 def module_fn(x, y=1):
@@ -513,7 +515,8 @@ def _files_case(case, res):
             if got != model[p][1]:
               return res.violate('raw records of %s: %r, written %r' % (short, got, model[p][1]), law='records-differ', **sig)
         elif name == 'writefile':
-          text = TEXTS[op.get('x', 0) % len(TEXTS)]
+          # (raw text files follow the interpreter's text mode: a lone '\r' is read back as '\n', as with open())
+          text = TEXTS[op.get('x', 0) % len(TEXTS)].replace('\r', ' ')
           ensure_dir()
           pg.io.writefile(p, text)
           if p in model:
